@@ -14,6 +14,7 @@ import (
 	"bytes"
 	"context"
 	"encoding/json"
+	"errors"
 	"fmt"
 	"io"
 	"net/http"
@@ -22,6 +23,7 @@ import (
 	"sort"
 	"strings"
 	"sync"
+	"sync/atomic"
 	"testing"
 	"time"
 
@@ -49,6 +51,9 @@ type c02Spec struct {
 	Transport string       `json:"transport"` // stdio | sse | http-sse | http-json
 	Version   string       `json:"version"`
 	Payloads  []c02Payload `json:"payloads"`
+	// FlakyStore: the streamable handler has an event store whose Append fails every third time. Storing for
+	// later replay is a service on top: a connected client still gets its answer.
+	FlakyStore bool `json:"flaky_store,omitempty"`
 }
 
 type c02Resp struct {
@@ -345,6 +350,9 @@ func genC02(r *vh.Rand, idx int) c02Spec {
 			pre = append(pre, c02Payload{Pre: true, Msgs: []c02Msg{m}})
 		}
 		s.Payloads = append(pre, s.Payloads...)
+	}
+	if s.Transport == "http-sse" && r.Chance(1, 3) {
+		s.FlakyStore = true
 	}
 	return s
 }
@@ -705,7 +713,11 @@ func runC02(c *vh.Case, spec c02Spec) ([]c02Resp, map[int]int) {
 		wg.Wait()
 		ip.Wait()
 	default: // streamable
-		h := mcp.NewStreamableHTTPHandler(func(*http.Request) *mcp.Server { return server }, &mcp.StreamableHTTPOptions{JSONResponse: spec.Transport == "http-json"})
+		ho := &mcp.StreamableHTTPOptions{JSONResponse: spec.Transport == "http-json"}
+		if spec.FlakyStore {
+			ho.EventStore = &c02FlakyStore{EventStore: mcp.NewMemoryEventStore(nil)}
+		}
+		h := mcp.NewStreamableHTTPHandler(func(*http.Request) *mcp.Server { return server }, ho)
 		ip := &vhm.InProc{Handler: h}
 		hdr := map[string]string{"Content-Type": "application/json", "Accept": "application/json, text/event-stream"}
 		st, rh, body, err := ip.Do(ctx, "POST", "http://example.test/mcp", hdr, []byte(initMsg))
@@ -984,4 +996,17 @@ func decideC02(c *vh.Case, spec c02Spec, resps []c02Resp, stat map[int]int) {
 	if (calls >= 2 || batches > 0) && rejects >= 1 {
 		c.Nontrivial(sig.String())
 	}
+}
+
+// c02FlakyStore is an event store whose Append fails every third time.
+type c02FlakyStore struct {
+	mcp.EventStore
+	n atomic.Int64
+}
+
+func (f *c02FlakyStore) Append(ctx context.Context, sid, stream string, data []byte) error {
+	if f.n.Add(1)%3 == 0 {
+		return errors.New("verif: event store unavailable")
+	}
+	return f.EventStore.Append(ctx, sid, stream, data)
 }
